@@ -1,7 +1,7 @@
 import numpy as np
 import json
 
-from ..settings import Sign, EnvType, Format
+from ..settings import Sign, EnvType, Format, Keyword
 from ..datatypes import StringType, BooleanType, NumberType, FloatType, IntegerType
 from ..nodes import StringNode, BooleanNode, FloatNode, IntegerNode
 from ..environment import Environment
@@ -66,12 +66,18 @@ class ExportConfig:
             isarray = isinstance(value, (np.ndarray,tuple,list))
             if isarray:
                 value, dims = self._parse_array(value)
+            isscalar = not isarray and value is not None
+            if value is None:
+                value = Keyword.NONE
             if isinstance(param, StringType):
                 dtype = StringNode.keyword
-                value = f"'{value}'" if isarray else f"\"{value}\""
+                if isarray:
+                    value = f"'{value}'"
+                elif isscalar:
+                    value = f"\"{value}\""
             elif isinstance(param, BooleanType):
                 dtype = BooleanNode.keyword
-                if not isarray:
+                if isscalar:
                     value = "true" if value else "false"
             elif isinstance(param, IntegerType):
                 dtype = IntegerNode.keyword
@@ -79,13 +85,13 @@ class ExportConfig:
                     dtype = "u"+dtype
                 if param.precision!=IntegerType.precision:
                     dtype += str(param.precision)
-                if not isarray:
+                if isscalar:
                     value = int(param.value)
             elif isinstance(param, FloatType):
                 dtype = FloatNode.keyword
                 if param.precision!=FloatType.precision:
                     dtype += str(param.precision)
-                if not isarray:
+                if isscalar:
                     value = float(param.value)
             if isarray:
                 dtype += dims
